@@ -25,7 +25,7 @@ Definition g_memo : grammar :=
     mkRule (nm "A") [] (lit1 15%N 98%Z """b""") false false ].
 
 Definition cfg_memo (q : quirks) (memo : bool) : cfg :=
-  mkCfg q u0 (mkTmpl false false false false) (mkOpts memo false false true false 0%N [] [])
+  mkCfg q u0 (mkTmpl false false false false) (mkOpts memo false false true false 0%N [] [] [])
         [97; 98]%N g_memo env_x.
 
 Definition value_of (o : outcome) : option val := match o with Returned v _ _ => Some v | _ => None end.
@@ -53,7 +53,7 @@ Definition g_exp : grammar :=
     mkRule (nm "A") [] (lit1 7%N 97%Z """a""") false false ].
 
 Definition cfg_exp (q : quirks) (memo : bool) : cfg :=
-  mkCfg q u0 (mkTmpl false false false false) (mkOpts memo false false true false 0%N [] [])
+  mkCfg q u0 (mkTmpl false false false false) (mkOpts memo false false true false 0%N [] [] [])
         [98]%N g_exp env_x.
 
 Definition errors_of (o : outcome) : list bytes := match o with Returned _ es _ => map perr_string es | _ => [] end.
